@@ -313,10 +313,12 @@ def _do_shard(job, so, deps, compile_timeout, run_timeout, single_round=False):
                 r.diags.append({'level': 'error', 'code': None, 'kind': 'crash', 'msg': 'rustc rc=%s: %s' % (rc, se[-400:])})
                 return results
             mid = len(live) // 2
+            # a hang is found by bisection: sub-shards get a proportionally shorter cap (never below 20 s)
+            sub_timeout = max(20, compile_timeout // 2) if rc == -9 else compile_timeout
             for part in (live[:mid], live[mid:]):
                 sub = ShardJob(job.sid, [job.cases[i] for i in part], job.run, job.wdir, job.extra_prelude, job.prelude)
                 sub.sid = job.sid
-                rs = _do_shard(sub, so, deps, compile_timeout, run_timeout, single_round)
+                rs = _do_shard(sub, so, deps, sub_timeout, run_timeout, single_round)
                 for i, r in zip(part, rs):
                     results[i] = r
             return results
@@ -357,7 +359,7 @@ def _do_shard(job, so, deps, compile_timeout, run_timeout, single_round=False):
                 r.status = 'gen_error'
             else:
                 r.status = 'hand_error'
-        if rc != 0 and not failed:
+        if rc != 0 and not failed and not single_round:
             raise MachineryError('rustc failed on %s without attributable error: %s' % (src, se[-800:]))
         if single_round:
             return results
